@@ -243,6 +243,9 @@ func (fr *frame) runInstrs(st *PState, b, pred *ssa.BasicBlock, visits map[*ssa.
 				fr.runBlock(st, fb, b, visits)
 				return
 			}
+			if !fr.ex.Opts.NoMerge && fr.tryMerge(st, b, c, visits) {
+				return
+			}
 			fr.top.paths++
 			if fr.top.paths > fr.ex.Opts.MaxPaths || fr.top.overBudget() {
 				fr.top.capHit = true
@@ -323,6 +326,9 @@ func (fr *frame) resume(st *PState, b *ssa.BasicBlock, from int, visits map[*ssa
 			}
 			if c.S == "false" {
 				fr.runBlock(st, fb, b, visits)
+				return
+			}
+			if !fr.ex.Opts.NoMerge && fr.tryMerge(st, b, c, visits) {
 				return
 			}
 			fr.top.paths++
